@@ -34,6 +34,9 @@ class Obj:
 def constants():
     txt = open(os.path.join(core.REPO, 'tools/include/votca/tools/constants.h')).read()
     out = {}
+    m_b = re.search(r'const\s+double\s+bohr2ang\s*=\s*1\.0\s*/\s*([0-9.eE+-]+)\s*;', txt)
+    if m_b:
+        out['bohr2ang'] = D(1 / sp.Rational(m_b.group(1)))
     for nm in ('nm2ang', 'ang2nm', 'kcal2kj'):
         m = re.search(r'const\s+double\s+%s\s*=\s*([0-9.eE+-]+)\s*;' % nm, txt)
         if not m:
@@ -508,6 +511,102 @@ def job_lammps_atoms(seed):
     return obs
 
 
+class Fmt:
+    """boost::format by its contract: arguments are bound in order by operator%, the stream receives them in the positions the format names"""
+    def __init__(s, fmt): s.fmt, s.args = fmt, []
+    def nslots(s): return len(set(re.findall(r'%(\d+)\$', s.fmt)))
+    def op_call(s, op, b):
+        if op == 'operator%':
+            if len(s.args) >= s.nslots():
+                s.args = []              # a fully fed format starts over with the next argument
+            s.args.append(b); return s
+        return NotImplemented
+    def snapshot(s):
+        f = Fmt(s.fmt); f.args = list(s.args); return f
+    def call(s, name, args):
+        if name == 'str': return s
+        raise rvc.Unsupported('boost::format::' + name)
+    def fields(s):
+        out = []
+        for m in re.finditer(r'%(\d+)\$[-0-9.]*[a-z]+', s.fmt):
+            k = int(m.group(1)) - 1
+            out.append(s.args[k] if k < len(s.args) else None)
+        return out
+
+
+def job_writer_units(seed):
+    """xyz and pdb writers on a csg Topology: which overloads the writers ACTUALLY call for a bead (the AST carries the resolved callee) and hence which
+    unit factor and which name reach the file.  Positions of beads are in nm, both formats are in Angstrom: factor conv::nm2ang."""
+    rvc.reset()
+    K = constants()
+    obs = []
+    for fmtname, rel, cls, entry in (('xyz', 'csg/src/libcsg/modules/io/xyzwriter.cc', 'XYZWriter', 'Write'), ('pdb', 'csg/src/libcsg/modules/io/pdbwriter.cc', 'PDBWriter', 'Write')):
+        fns = rvc.functions(rvc.ast(rel, cls))
+        cand = [f for f in fns.get(entry, []) if len(rvc.params_of(f)) == 1]
+        if not cand:
+            raise core.Undecided('front end: %s::Write(Topology*) not found' % cls)
+        fn = cand[0]
+        pos = [Mx.sym('p%d' % k, 3) for k in range(2)]
+        beads = [Obj(m_getPos=lambda k=k: pos[k], m_Pos=lambda k=k: pos[k], m_getName=lambda k=k: 'BEADNAME%d' % k, m_getElement=lambda k=k: 'ELEMENT%d' % k, m_getId=lambda k=k: k, m_getResnr=lambda k=k: 0,
+                     m_getSymmetry=lambda: 1, m_getType=lambda: 'T') for k in range(2)]
+        written = []
+        conf = Obj(m_Beads=lambda: beads, m_getStep=lambda: 0, m_getTime=lambda: D(0), m_getResidue=lambda r: Obj(m_getName=lambda: 'RES'), m_BeadCount=lambda: 2)
+        def decl(ex_, vd, ty, inner):
+            if 'format' in ty and 'boost' in (ty + vd['type'].get('desugaredQualType', '')):
+                return Fmt(ctor_arg(ex_, inner))
+            return NotImplemented
+        def construct(ex_, n, ty, args):
+            if 'format' in ty and 'boost' in (ty + n['type'].get('desugaredQualType', '')) and args:
+                return Fmt(rvc.rval(ex_.expr(args[0])))
+            return NotImplemented
+        cb = {'decl': decl, 'construct': construct, 'ostream_write': lambda v: written.append(v.snapshot() if isinstance(v, Fmt) else v), 'global': lambda nm: K[nm] if nm in K else ('manip',), 'getResname': lambda *a: 'RES', 'writeSymmetry': lambda *a: None}
+        ex = Exec({'conf': conf}, cb, fns, {'__class__': cls, 'out_': 'ostream'})
+        try:
+            ex.stmt(rvc.body_of(fn))
+        except Ret:
+            pass
+        recs = [w for w in written if isinstance(w, Fmt) and len(w.args) >= 4 and any(isinstance(a, (D, Mx)) for a in w.args)]
+        recs = [w for w in recs if sum(1 for a in w.fields() if isinstance(a, D)) >= 3]
+        mfs = [{'name': '%s::%s' % (cls, k), 'file': rel if k == 'Write' else 'csg/include/votca/csg/%swriter.h' % fmtname, 'ast_nodes': rvc.node_count(v[0])} for k, v in fns.items() if k in ('Write', 'WriteContainer', 'getPos', 'getName')]
+        if fmtname == 'xyz':
+            # layout the real XYZReader expects: line 1 = number of atoms, line 2 = title, then one line per atom
+            first = written.index(recs[0]) if recs else len(written)
+            nl = sum((w.fmt if isinstance(w, Fmt) else w).count('\n') for w in written[:first] if isinstance(w, (str, Fmt)))
+            ob(obs, 'C08.xyz.atoms/layout', 'XYZWriter::Write', 'exactly two lines (atom count, title) precede the first atom record - the layout XYZReader::ReadFrame parses', nl == 2,
+               '%d line ends before the first atom record: %s' % (nl, [(w.fmt if isinstance(w, Fmt) else w) for w in written[:first] if isinstance(w, (str, Fmt))]), bound='2 beads', fns=None,
+               wit={'line_ends_before_first_atom': nl})
+        ok = len(recs) == 2
+        ob(obs, 'C08.%s.atoms/records' % fmtname, '%s::Write' % cls, 'one atom record per bead', ok, 'records %d of %d writes' % (len(recs), len(written)), bound='2 beads', fns=mfs)
+        if not ok:
+            continue
+        for k, w in enumerate(recs):
+            vals = [a for a in w.fields() if isinstance(a, D)][-3:]
+            bad = [c for c in range(3) if not rvc.nf_zero(vals[c].v - K['nm2ang'].v * pos[k].g(c, 0).v)]
+            ob(obs, 'C08.%s.atoms/bead%d.position' % (fmtname, k), '%s::Write' % cls, 'the coordinates written for a bead are its position (nm) times conv::nm2ang, the Angstrom the format and its reader use - for the overload the writer really calls for a bead',
+               not bad, 'written %s' % [str(v.v) for v in vals], bound='2 beads', fns=mfs, wit={'bead': k, 'written': str([str(v.v) for v in vals]), 'expected': 'nm2ang * position'})
+            names = [a for a in w.fields() if isinstance(a, str)]
+            okn = any(('BEADNAME%d' % k)[:3] in a or a.strip() in ('BEADNAME%d' % k)[:4] for a in names)
+            ob(obs, 'C08.%s.atoms/bead%d.name' % (fmtname, k), '%s::Write' % cls, 'the name written for a bead is (a prefix of) the bead name', okn, 'written strings %s' % names, bound='2 beads', fns=mfs, wit={'bead': k, 'strings': str(names)})
+        if fmtname == 'xyz' and any(o['status'] == core.REFUTED for o in obs if '.xyz.' in o['id']):
+            replay_xyz([o for o in obs if '.xyz.' in o['id'] and o['status'] == core.REFUTED])
+    return obs
+
+
+def replay_xyz(bad):
+    try:
+        exe = native.build('C08.xyz', open(os.path.join(CDIR, 'replay_xyz.cc')).read(), [], sanitize=False, opt='-O1', libs=native.libs())
+        tmp = os.path.join(core.VERIF, 'build', 'tmp')
+        os.makedirs(tmp, exist_ok=True)
+        f = os.path.join(tmp, 'c08_%d.xyz' % os.getpid())
+        rc, out, err = native.execute(exe, [f], timeout=60)
+        rep = {'reproduced': rc == 1, 'cmd': '%s %s' % (exe, f), 'rc': rc, 'stdout': (out or '')[-700:], 'stderr': (err or '')[-300:],
+               'against': 'real XYZWriter / XYZReader through the factories (libvotca_csg from the working tree): one bead at (1,2,3) nm, write then read'}
+    except core.Undecided as e:
+        rep = {'reproduced': False, 'error': str(e)}
+    for o in bad:
+        o['replay'] = rep
+
+
 def job_dlpoly_box(seed):
     """DL_POLY CONFIG: the three cell lines of the writer, read by the reader, give the box back (cell vector i is line i; VOTCA keeps the box vectors as columns)"""
     rvc.reset()
@@ -664,7 +763,7 @@ def collect(obs):
 
 
 def run(tier, seed, only=None):
-    jobs = [(job_gro_box, (seed,)), (job_lammps_box, (seed,)), (job_dlpoly_box, (seed,)), (job_lammps_atoms, (seed,)), (job_gro_atoms, (seed,)), (job_count, (seed,))]
+    jobs = [(job_gro_box, (seed,)), (job_lammps_box, (seed,)), (job_dlpoly_box, (seed,)), (job_lammps_atoms, (seed,)), (job_gro_atoms, (seed,)), (job_writer_units, (seed,)), (job_count, (seed,))]
     if only:
         jobs = [j for j in jobs if re.search(only, j[0].__name__)] or jobs
     obs = core.pmap(jobs)
